@@ -1,0 +1,9 @@
+//go:build !verif
+
+package sync
+
+// Scheduling points for deterministic simulation.
+// They compile to nothing unless the `verif` build tag is set.
+func simYield(string)   {}
+func simAcquire(string) {}
+func simRelease(string) {}
